@@ -62,4 +62,10 @@ META["C09"] = {
     "technique": "property-based testing (rapid) over operation histories + rapid.MakeFuzz; oracle: byte-exact prediction from the reference parser, round-trip fixpoint, reference-signed signatures still verifying",
 }
 
+META["C19"] = {
+    "text": "Model-based exploration of decode histories on one reused destination per decoder, with a deep memory dump as the observation: history-freedom (same as a fresh decode), atomicity (failed decode leaves every byte, including slice capacity, untouched) and no aliasing with input or output buffers. Exploration over generated histories is the right level for a for-all-sequences statement.",
+    "note": TRUST,
+    "technique": "property-based testing (rapid) over operation histories; oracle: reflect-based deep snapshot equality against a fresh decode / the pre-state",
+}
+
 NOT_APPLICABLE = {}
